@@ -64,8 +64,8 @@ example :
 /-! ## `ExpandOK`: the expansion has the shape the refinement theorem assumes
 
 `expandOKB g θs helpers main` (`ExpandOK.lean`) is the executable checker that used to live in Python
-(`harness/props/shape.py::expand_ok`): every helper impl is its member with the trait path renamed and
-`row ++ member's trait arguments` as arguments, the main impl has the family's trait path and self type, a
+(`harness/props/shape.py::expand_ok`): every helper impl is its member with the helper trait as trait reference (the
+checker reads the LAST segment of both paths only) and `row ++ member's trait arguments` as arguments, the main impl has the family's trait path and self type, a
 predicate `bounded: trait` per key and `Self: helper<lifetimes, projections of the keys, …>`. It reads the given
 trees positionally and does not call the generators. Below it is proved of the model's own expansion
 (`helperImpls`, `mainImplOfTrait` of `Expand.lean`, which agree tree for tree with the real generators on every
@@ -180,9 +180,11 @@ theorem C01_helper_trait_keeps_items (tr : T) (idx nkeys : Nat) (ht : T)
     mode (`inherentFamily_inh g = false`: the first block has a trait path) then there is one helper impl per member and
     the `i`-th helper impl is the `i`-th member block with ONLY its trait reference (child 4) changed: attributes, `default`,
     `unsafe`, generics with their where-clause, self type and the ITEM LIST (child 6, `implItems`) are the member's.
-    The trait reference: same leading `::` and leading segments; the last segment is renamed `_<name><idx>` and its arguments
-    are the member's row (`rowArgs`: a payload as a generic argument, a wildcard as the projection of the key) followed by the
-    member's own trait arguments. -/
+    The trait reference is the SINGLE segment `_<name><idx><…>` — `name` the identifier of the LAST segment of the member's
+    trait path — with no leading `::` and none of the member's leading segments (disjoint.rs: `*trait_ = path.clone().into()`;
+    the helper trait is declared next to the helper impls, so `impl self::Kita for T` yields `impl _Kita0<…> for T`); its
+    arguments are the member's row (`rowArgs`: a payload as a generic argument, a wildcard as the projection of the key)
+    followed by the member's own (last-segment) trait arguments. -/
 theorem C01_helper_impls_keep_items (idx : Nat) (g : T × ABG × List Blk) (hs : List T)
     (hh : helperImpls idx g = some hs) (htr : inherentFamily_inh g = false) (hwf : expandWF g = true) :
     hs.length = g.2.2.length ∧
@@ -190,8 +192,9 @@ theorem C01_helper_impls_keep_items (idx : Nat) (g : T × ABG × List Blk) (hs :
       (∀ j, j ≠ 4 → XOK.kid hs[i] j = XOK.kid g.2.2[i].item j) ∧
       implItems hs[i] = implItems g.2.2[i].item ∧
       ∃ mp hp, implTraitPath g.2.2[i].item = some mp ∧ XOK.traitPathOf hs[i] = some hp ∧
-        pathLead hp = pathLead mp ∧ initSegsOf hp = initSegsOf mp ∧
-        (∃ x, lastSegIdentOf mp = some x ∧ lastSegIdentOf hp = some (genIdentStr x idx)) ∧
+        pathLead hp = noLead ∧ initSegsOf hp = [] ∧
+        (∃ x, lastSegIdentOf mp = some x ∧ lastSegIdentOf hp = some (genIdentStr x idx) ∧
+          ∃ na, hp = pathNode noLead [.node "PathSegment" [] [tIdent (genIdentStr x idx), na]]) ∧
         XOK.segArgs (XOK.lastSeg hp) =
           rowArgs g.2.1.idents (g.2.1.payloads.getD i []) ++ XOK.segArgs (XOK.lastSeg mp) := by
   have hpl := payloads_length_of_wf_it hwf
